@@ -105,24 +105,32 @@ def main():
                     X[u] = xs
                 c["rels"].append({"rel": "ball", "x": 1, "t": t + 1, "X": X})
                 nballs += 1
-    # ---- dense time (offline): sign of the returned step function against Dense!SatC
+    # ---- dense time (offline and online): sign of the returned step function against Dense!SatC
     dcases = []
     DOPS = ["not", "and", "or", "implies", "once", "hist", "ev", "alw", "since", "until", "onceT", "histT", "evT", "alwT", "sinceT", "untilT", "unlessT"]
+    PAST_DOPS = ["not", "and", "or", "implies", "once", "hist", "since", "onceT", "histT", "sinceT"]
     for i in range(n // 4):
         S = rng.choice([1, 2])
-        g = Gen(rng, vars_=rng.choice([("x",), ("x", "y")]), S=S, ops=DOPS, ivs=[(0, 1), (1, 2), (0, 3), (2, 2)], bool_atoms=False,
-                var_const_preds=rng.random() < 0.6)
+        g = Gen(rng, vars_=rng.choice([("x",), ("x", "y")]), S=S, ops=DOPS if rng.random() < 0.55 else PAST_DOPS, ivs=[(0, 1), (1, 2), (0, 3), (2, 2)],
+                bool_atoms=False, var_const_preds=rng.random() < 0.6)
         phi = g.formula(rng.choice([1, 2, 2, 3]))
         if not vars_of(phi):
             continue
         vs = vars_of(phi)
         end = rng.choice([3, 5, 8])
         w = {v: gen_signal(rng, rng.choice([2, 3, 4, 6]), t0=0, S=S, end=end, lo=-3, hi=3) for v in vs}
-        dcases.append(case([ct_obj(phi, S, vs)], [ev_parse(), ev_ct("evaluate", w)], skip=["evaluate.value", "evaluate.start"]))
+        if not (ops_of(phi) & FUT) and rng.random() < 0.7:
+            # the online monitor, fed by a random partition of the signals into (lagging) per-variable batches
+            import c05 as _c05
+            sc = {v: rng.choice(_c05.splits(len(w[v]))) for v in vs}
+            evs = _c05.staggered_events(rng, w, sc, 1) if len(vs) > 1 and rng.random() < 0.5 else _c05.schedule_events(w, sc, 1)
+            dcases.append(case([ct_obj(phi, S, vs)], [ev_parse()] + evs, skip=["update.value"], kind="ct_on"))
+            continue
+        dcases.append(case([ct_obj(phi, S, vs)], [ev_parse(), ev_ct("evaluate", w)], skip=["evaluate.value", "evaluate.start"], kind="ct_off"))
     dtr = runner.run_cases(dcases)
     dvs, dgen, ddist = core.validate("C07_dense", dtr, module="TraceCt")
     rep.add_traces(dtr, dvs, dgen, ddist, nontrivial_key=lambda c: c["objs"][0]["text"] + str(c["events"][-1]["w"]))
-    rep.extra["dense_cases"] = len(dcases)
+    rep.extra["dense_cases"] = {k: sum(1 for c in dcases if c["kind"] == k) for k in ("ct_off", "ct_on")}
     vs_, gen, dist = core.validate("C07", traces)
     rep.add_traces(traces, vs_, gen, dist, nontrivial_key=lambda c: c["objs"][0]["text"] + str(c["events"][-1].get("w", c["events"][-1].get("s"))))
     rep.extra["perturbed_traces_checked"] = nballs
